@@ -37,55 +37,74 @@ CONTRACTS = [
         ensures={
             "shape": "len(result) == ipow(4, observed_length) and len(result[0]) == 4",
             "arcs-inside-mask": "forall(lambda u: forall(lambda j: result[u][j] == ite(vertices[u] != 0 and vertices[" + SUCC + "] != 0, " + SUCC + ", -1), 0, 4), "
-                                "0, ipow(4, observed_length))",
+                                "0, ipow(4, observed_length), lambda u: result[u])",
         },
         raises={"ValueError": "forall(lambda i: vertices[i] == 0, 0, len(vertices))"},
         ghost={"entry": "ipow_mono(4, 0, observed_length)\nssum_zero_iff(A(vertices), D(vertices), P(vertices, 0), P(vertices, len(vertices)))"},
         loops={1: dict(binds="range(int(len(nucleotides) ** observed_length))", invariant={
-            "finished-rows": "forall(lambda u: forall(lambda j: accessor[u][j] == ite(vertices[u] != 0 and vertices[" + SUCC + "] != 0, " + SUCC + ", -1), 0, 4), 0, _i)",
-            "untouched-rows": "forall(lambda u: forall(lambda j: accessor[u][j] == -1, 0, 4), _i, ipow(4, observed_length))"})},
+            "finished-rows": "forall(lambda u: forall(lambda j: accessor[u][j] == ite(vertices[u] != 0 and vertices[" + SUCC + "] != 0, " + SUCC + ", -1), 0, 4), 0, _i, "
+                             "lambda u: accessor[u])",
+            "untouched-rows": "forall(lambda u: forall(lambda j: accessor[u][j] == -1, 0, 4), _i, ipow(4, observed_length), lambda u: accessor[u])"})},
     ),
     # ------------------------------------------------------------------ C03 (thresholds 2..4: the whole function; threshold 1: see DESIGN)
+    dict(name="dsw.spiderweb.connect_coding_graph", abstract=True,
+         dispatch={"param": "threshold", "int": "dsw.spiderweb.connect_coding_graph#t234"}),
     dict(
         name="dsw.spiderweb.connect_coding_graph#t234", function="dsw.spiderweb.connect_coding_graph", variant_of="dsw.spiderweb.connect_coding_graph",
         n_loops=11, candidates={"observed_length": [1, 2]},
         params={"observed_length": "nat", "vertices": "nd_bits", "threshold": "nat", "verbose": "false"},
         split={"threshold": [2, 3, 4]},
-        # S: an ARBITRARY closed subset of the mask (universally quantified ghost input): the result must contain it
+        # S: an ARBITRARY closed subset of the mask (universally quantified ghost input): the result must contain it.
+        # Closedness facts (v marked => enough marked successors) re-trigger themselves under E-matching, so they carry the explicit
+        # instantiation marker here(v): proofs that need an instance walk over the vertices in a ghost loop and mark(v).
         ghost_params={"S": "nd_bits"},
         requires={"order": "observed_length >= 1", "mask-length": "len(vertices) == ipow(4, observed_length)",
                   "S-length": "len(S) == ipow(4, observed_length)",
-                  "S-inside-mask": "forall(lambda v: implies(S[v] != 0, vertices[v] != 0), 0, ipow(4, observed_length))"},
-        stashed_requires={"S-closed": "forall(lambda v: implies(S[v] != 0, nsucc(S, v, observed_length) >= threshold), 0, ipow(4, observed_length))"},
+                  "S-inside-mask": "forall(lambda v: implies(S[v] != 0, vertices[v] != 0), 0, ipow(4, observed_length))",
+                  "S-closed": "forall(lambda v: implies(S[v] != 0, nsucc(S, v, observed_length) >= threshold), 0, ipow(4, observed_length), lambda v: here(v))"},
         returns="tuple(nd_bits,mat(ipow(4, observed_length), 4))",
         ensures={
             "description-length": "len(result[0]) == ipow(4, observed_length)",
             "inside-mask": "forall(lambda v: implies(result[0][v] != 0, vertices[v] != 0), 0, ipow(4, observed_length))",
-            "closed": "forall(lambda v: implies(result[0][v] != 0, nsucc(result[0], v, observed_length) >= threshold), 0, ipow(4, observed_length))",
+            "closed": "forall(lambda v: implies(result[0][v] != 0, nsucc(result[0], v, observed_length) >= threshold), 0, ipow(4, observed_length), lambda v: here(v))",
             "contains-every-closed-subset": "forall(lambda v: implies(S[v] != 0, result[0][v] != 0), 0, ipow(4, observed_length))",
             "non-empty": "exists(lambda v: result[0][v] != 0, 0, ipow(4, observed_length))",
-            "induced-accessor": "forall(lambda u: forall(lambda j: result[1][u][j] == ite(result[0][u] != 0 and result[0][" + SUCC + "] != 0, " + SUCC + ", -1), 0, 4), "
-                                "0, ipow(4, observed_length))",
+            "induced-accessor": "forall(lambda u: forall(lambda j: result[1][u][j] == ite(result[0][u] != 0 and result[0][(u % ipow(4, observed_length - 1)) * 4 + j] != 0, (u % ipow(4, observed_length - 1)) * 4 + j, -1), 0, 4), "
+                                "0, ipow(4, observed_length), lambda u: result[1][u])",
             "description-marks-vertices-with-arcs": "forall(lambda u: (result[0][u] != 0) == (result[1][u][0] >= 0 or result[1][u][1] >= 0 or result[1][u][2] >= 0 "
-                                                    "or result[1][u][3] >= 0), 0, ipow(4, observed_length))",
+                                                    "or result[1][u][3] >= 0), 0, ipow(4, observed_length), lambda u: result[1][u])",
         },
         raises_only_when={"ValueError": "forall(lambda v: S[v] == 0, 0, ipow(4, observed_length))"},
         ghost={
             "entry": "ipow_mono(4, 0, observed_length)\nmask0 = vertices",
             "loop1_begin": "ssum_zero_iff(A(vertices), D(vertices), P(vertices, 0), P(vertices, len(vertices)))",
+            "after_loop2": "ssum_mono_eq(A(new_vertices), D(new_vertices), A(vertices), D(vertices), P(vertices, 0), P(vertices, len(vertices)))\n"
+                           "ssum_zero_iff(A(new_vertices), D(new_vertices), P(new_vertices, 0), P(new_vertices, len(new_vertices)))\n"
+                           "ssum_zero_iff(A(vertices), D(vertices), P(vertices, 0), P(vertices, len(vertices)))\n"
+                           "gv = 0\n"
+                           "while gv < ipow(4, observed_length):\n"
+                           "    mark(gv)\n"
+                           "    assert implies(S[gv] != 0, new_vertices[gv] != 0), 'S-survives-this-round'\n"
+                           "    gv += 1\n"
+                           "if ssum(vertices, 0, len(vertices)) == ssum(new_vertices, 0, len(new_vertices)):\n"
+                           "    cv = 0\n"
+                           "    while cv < ipow(4, observed_length):\n"
+                           "        assert implies(vertices[cv] != 0, nsucc(vertices, cv, observed_length) >= threshold), 'fixed-point-is-closed'\n"
+                           "        cv += 1\n"
+                           "    stash('closed', forall(lambda v: implies(vertices[v] != 0, nsucc(vertices, v, observed_length) >= threshold), 0, ipow(4, observed_length), lambda v: here(v)))",
             "before_loop3": "stash('inside-mask', forall(lambda v: implies(vertices[v] != 0, mask0[v] != 0), 0, ipow(4, observed_length)))\n"
                             "stash('contains-S', forall(lambda v: implies(S[v] != 0, vertices[v] != 0), 0, ipow(4, observed_length)))\n"
-                            "stash('closed', forall(lambda v: implies(vertices[v] != 0, nsucc(vertices, v, observed_length) >= threshold), 0, ipow(4, observed_length)))\n"
                             "cut(len(vertices) == ipow(4, observed_length), ipow(4, observed_length) >= 1,\n"
                             "    forall(lambda v: vertices[v] == 0 or vertices[v] == 1, 0, len(vertices)),\n"
                             "    exists(lambda v: vertices[v] != 0, 0, ipow(4, observed_length)),\n"
                             "    ipow(4, observed_length) == 4 * ipow(4, observed_length - 1), ipow(4, observed_length - 1) >= 1)",
-            "after_loop3": "unstash('inside-mask')\nunstash('contains-S')\nunstash('closed')",
-            "before_loop2": "stash('l1-inside-mask', forall(lambda v: implies(vertices[v] != 0, mask0[v] != 0), 0, ipow(4, observed_length)))\n"
-                            "stash('l1-contains-S', forall(lambda v: implies(S[v] != 0, vertices[v] != 0), 0, ipow(4, observed_length)))",
-            "after_loop2": "unstash('l1-inside-mask')\nunstash('l1-contains-S')\nunstash('S-closed')\nssum_mono_eq(A(new_vertices), D(new_vertices), A(vertices), D(vertices), P(vertices, 0), P(vertices, len(vertices)))\n"
-                           "ssum_zero_iff(A(new_vertices), D(new_vertices), P(new_vertices, 0), P(new_vertices, len(new_vertices)))\n"
-                           "ssum_zero_iff(A(vertices), D(vertices), P(vertices, 0), P(vertices, len(vertices)))",
+            "after_loop3": "unstash('closed')\n"
+                           "du = 0\n"
+                           "while du < ipow(4, observed_length):\n"
+                           "    mark(du)\n"
+                           "    assert (vertices[du] != 0) == (accessor[du][0] >= 0 or accessor[du][1] >= 0 or accessor[du][2] >= 0 or accessor[du][3] >= 0), 'row-has-arcs-iff-marked'\n"
+                           "    du += 1\n"
+                           "unstash('inside-mask')\nunstash('contains-S')",
         },
         loops={
             1: dict(binds="True", invariant={
@@ -100,9 +119,17 @@ CONTRACTS = [
                              "0, ite(_i < len(saved_indices), saved_indices[_i], len(vertices)), lambda v: new_vertices[v])",
                 "not-yet": "forall(lambda v: new_vertices[v] == 0, ite(_i < len(saved_indices), saved_indices[_i], len(vertices)), len(vertices))",
             }),
+            "after_loop2#1": dict(invariant={"range": "0 <= gv <= ipow(4, observed_length)",
+                                             "S-survives": "forall(lambda v: implies(S[v] != 0, new_vertices[v] != 0), 0, gv)"}, variant="ipow(4, observed_length) - gv"),
+            "after_loop2#2": dict(invariant={"range": "0 <= cv <= ipow(4, observed_length)",
+                                             "closed-so-far": "forall(lambda v: implies(vertices[v] != 0, nsucc(vertices, v, observed_length) >= threshold), 0, cv, "
+                                                              "lambda v: here(v))"}, variant="ipow(4, observed_length) - cv"),
             3: dict(binds="range(int(len(nucleotides) ** observed_length))", invariant={
-                "finished-rows": "forall(lambda u: forall(lambda j: accessor[u][j] == ite(vertices[u] != 0 and vertices[" + SUCC + "] != 0, " + SUCC + ", -1), 0, 4), 0, _i)",
-                "untouched-rows": "forall(lambda u: forall(lambda j: accessor[u][j] == -1, 0, 4), _i, ipow(4, observed_length))"}),
+                "finished-rows": "forall(lambda u: forall_q(lambda j: accessor[u][j] == ite(vertices[u] != 0 and vertices[(u % ipow(4, observed_length - 1)) * 4 + j] != 0, (u % ipow(4, observed_length - 1)) * 4 + j, -1), 0, 4), 0, _i)",
+                "untouched-rows": "forall(lambda u: forall_q(lambda j: accessor[u][j] == -1, 0, 4), _i, ipow(4, observed_length))"}),
+            "after_loop3#1": dict(invariant={"range": "0 <= du <= ipow(4, observed_length)",
+                                             "rows-so-far": "forall(lambda u: (vertices[u] != 0) == (accessor[u][0] >= 0 or accessor[u][1] >= 0 or accessor[u][2] >= 0 "
+                                                            "or accessor[u][3] >= 0), 0, du, lambda u: accessor[u])"}, variant="ipow(4, observed_length) - du"),
         },
     ),
     # ------------------------------------------------------------------ C07
